@@ -26,8 +26,8 @@ const LEVELS: [&str; 5] = ["empty", "one", "many", "300", "65537"];
 const LEVEL_COUNTS: [usize; 5] = [0, 1, 3, 300, 65537];
 
 /// quick: full product of 5 sections x {empty, one, many}; thorough: full product over
-/// {empty, one, many, 300} plus every tuple over {empty, many} in which one or two sections
-/// are raised to 65537 elements (past the 16-bit boundary of the index values)
+/// {empty, one, many, 300} plus every tuple over {empty, many} in which one or two of the plain
+/// index sections are raised to 65537 elements (past the 16-bit boundary of the index values)
 pub struct SkinSpace {
     tuples: Vec<[u64; 5]>,
 }
@@ -40,8 +40,9 @@ impl SkinSpace {
             tuples.push([d[0], d[1], d[2], d[3], d[4]]);
         }
         if t == Tier::Thorough {
-            // one or two sections raised to 65537 elements, the others over {empty, many}
-            for mask in 1..32u32 {
+            // one or two of the plain index sections (indices, triangles, bone indices) raised to
+            // 65537 elements, the other sections over {empty, many}
+            for mask in 1..8u32 {
                 if mask.count_ones() > 2 {
                     continue;
                 }
